@@ -414,7 +414,7 @@ func referenceOCSPAuthentic(body []byte, cert, issuer *x509.Certificate) bool {
 func runC14(h *Harness) {
 	tp := h.Tape
 	sc := h.R.Scenario
-	def := Pick(tp, "", "40s", "2m")
+	def := Pick(tp, "", "40s", "2m", "1h", "6h") // defaults shorter AND longer than the nextUpdate windows below
 	defD, _ := time.ParseDuration(def)
 	nu := Pick(tp, time.Duration(0), time.Duration(0), -time.Hour, 3*time.Minute, 20*time.Minute, -5*time.Minute, -14*time.Minute, -30*time.Second)
 	strict := tp.Chance(3, 4)
